@@ -398,10 +398,10 @@ Section Core.
      then fail FrozenErr else ret tt) ;;;
     match (if force then None else lookup_attr k a) with
     | Some sp =>
-        if is_missing (a_default sp)
+        d <- lookup_default_value sp k ;;
+        if is_missing d
         then raw_delattr l a ;;; (if skip then ret tt else invalidate_attrs l a) ;;; ret VNone
-        else v <- protect ct (a_default sp) ;;
-             mutate_attr l a v true true true skip
+        else mutate_attr l a d true true true skip
     | None =>
         raw_delattr l a ;;; (if skip then ret tt else invalidate_attrs l a) ;;; ret VNone
     end.
